@@ -792,6 +792,22 @@ pub mod verif_hooks {
     #[derive(Debug, Default)]
     pub struct ServerCodec(super::ServerCodec);
 
+    impl ClientCodec {
+        /// Number of bytes the frame decoder currently remembers as dropped.
+        #[must_use]
+        pub fn dropped_len(&self) -> usize {
+            self.0.decoder.frame_decoder.dropped_bytes.len()
+        }
+    }
+
+    impl ServerCodec {
+        /// Number of bytes the frame decoder currently remembers as dropped.
+        #[must_use]
+        pub fn dropped_len(&self) -> usize {
+            self.0.decoder.frame_decoder.dropped_bytes.len()
+        }
+    }
+
     impl Decoder for ClientCodec {
         type Item = (SlaveId, std::result::Result<Response, ExceptionResponse>);
         type Error = Error;
